@@ -15,6 +15,10 @@ fairness-based termination of real threads, the GIL, OS scheduling, network time
 -/
 import OdmlModel.Model.Loader
 import OdmlModel.Proofs.Loader
+import OdmlModel.Proofs.LoaderProgress
+import OdmlModel.Proofs.LoaderMeasure
+import OdmlModel.Proofs.LoaderNode
+import OdmlModel.Proofs.LoaderFinal
 
 namespace C18
 open Loader
@@ -64,6 +68,31 @@ theorem load_result_schedule_independent (g : Url → Res) (rank : Url → Nat) 
     | missing => exact resolve_missing g rank _ hg
     | garbage => exact resolve_garbage g rank _ hg
     | doc incs => exact absurd hg (hne incs)
+
+/-- `load(k)` returns `None` itself exactly when the resource cannot be fetched or parsed (a
+    document object is only ever built from a parsed document: no completed operation, and no
+    table entry, is an object without content). -/
+theorem load_none_iff_unloadable (g : Url → Res) (rank : Url → Nat) (acyc : Acyclic g rank)
+    (cache0 : Url → CacheSt) (prog : List Op) (s : State) (hs : Reachable g cache0 prog s)
+    (r : Result) (hr : r ∈ s.results) (k : Key) (hop : r.op = .load k) :
+    (r.val = none ↔ ∀ incs, g k.url ≠ .doc incs) := by
+  have h3 : Inv3 s := by
+    obtain ⟨sched, rfl⟩ := hs
+    exact runSched_inv3 g sched _ (init_inv3 cache0 prog)
+  obtain ⟨_, hdoc, hfail⟩ := load_result_schedule_independent g rank acyc cache0 prog s hs r hr k hop
+  constructor
+  · intro hnone incs hg
+    obtain ⟨o, ho, _⟩ := hdoc incs hg
+    rw [hnone] at ho
+    cases ho
+  · intro hne
+    have hc := hfail hne
+    cases hv : r.val with
+    | none => rfl
+    | some o =>
+      obtain ⟨u, kids, ht⟩ := h3.resNV r hr o hv
+      rw [hv] at hc
+      simp [Val.content, ht] at hc
 
 /-- Two schedules of the same program give the same content for the same load. -/
 example (g : Url → Res) (rank : Url → Nat) (acyc : Acyclic g rank) (cache0 : Url → CacheSt)
@@ -133,6 +162,263 @@ example : (step (fun _ => .missing)
       results := [], threads := [] } 0).sh.err = true := by
   decide
 
+/-! ## 5. No call blocks forever: deadlock freedom (`progress`) -/
+
+theorem reachable_invP (g : Url → Res) (rank : Url → Nat) (acyc : Acyclic g rank)
+    (cache0 : Url → CacheSt) (prog : List Op) (s : State) (hs : Reachable g cache0 prog s) :
+    InvP s := by
+  obtain ⟨sched, rfl⟩ := hs
+  exact runSched_invP g rank cache0 acyc sched _ (init_inv g rank cache0 prog) (init_invP cache0 prog)
+
+/-- Every `Thread.join` is a join of an existing, started loader thread that was started for the
+    very key the joining `load` asks for, and so is every thread recorded in `loading` (a join of
+    a thread that does not exist or was not started is modelled as "never enabled"; it cannot
+    happen). -/
+theorem join_names_started_thread (g : Url → Res) (rank : Url → Nat) (acyc : Acyclic g rank)
+    (cache0 : Url → CacheSt) (prog : List Op) (s : State) (hs : Reachable g cache0 prog s) :
+    (∀ t k j, Frame.join k j ∈ stackOf s t →
+      ∃ i th, j = i + 1 ∧ s.threads[i]? = some th ∧ th.root = k) ∧
+    (∀ k j, s.sh.loading k = some j →
+      ∃ i th, j = i + 1 ∧ s.threads[i]? = some th ∧ th.root = k) := by
+  have hp := reachable_invP g rank acyc cache0 prog s hs
+  refine ⟨?_, fun k j hl => thrRef_get _ _ _ (hp.loadingThr k j hl)⟩
+  intro t k j hj
+  cases t with
+  | zero => exact thrRef_get _ _ _ (hp.callerJoin k j hj)
+  | succ i =>
+    simp only [stackOf] at hj
+    cases hth : s.threads[i]? with
+    | none => simp [hth] at hj
+    | some th =>
+      simp only [hth] at hj
+      exact thrRef_get _ _ _ (hp.thrJoin th (List.mem_of_getElem? hth) k j hj)
+
+/-- Deadlock freedom, for every acyclic include graph, every initial cache, every caller program
+    and every schedule: in every reachable state either all threads have finished (the caller
+    has completed its whole program, every loader thread has exited) or some thread is enabled.
+    No reachable state is stuck with unfinished threads. -/
+theorem progress (g : Url → Res) (rank : Url → Nat) (acyc : Acyclic g rank)
+    (cache0 : Url → CacheSt) (prog : List Op) (s : State) (hs : Reachable g cache0 prog s) :
+    allDone s = true ∨ ∃ t, enabled s t = true :=
+  progress_of_inv g rank cache0 acyc s (reachable_inv g rank acyc cache0 prog s hs)
+    (reachable_invP g rank acyc cache0 prog s hs)
+
+/-- Waits-for edges go strictly down `rank`: a loader thread that waits at a `join` waits for a
+    thread whose root resource is (transitively) included by its own root resource. -/
+theorem waits_for_decreases_rank (g : Url → Res) (rank : Url → Nat) (acyc : Acyclic g rank)
+    (cache0 : Url → CacheSt) (prog : List Op) (s : State) (hs : Reachable g cache0 prog s)
+    (i : Nat) (th : Thr) (hth : s.threads[i]? = some th) (k : Key) (j : Nat) (rest : List Frame)
+    (hstk : th.stack = .join k j :: rest) :
+    ∃ i' th', j = i' + 1 ∧ s.threads[i']? = some th' ∧ th'.root = k ∧
+      rank th'.root.url < rank th.root.url := by
+  have hi := reachable_inv g rank acyc cache0 prog s hs
+  have hp := reachable_invP g rank acyc cache0 prog s hs
+  have hmem := List.mem_of_getElem? hth
+  obtain ⟨i', th', rfl, hth', hroot⟩ :=
+    thrRef_get _ _ _ (hp.thrJoin th hmem k j (by rw [hstk]; simp))
+  refine ⟨i', th', rfl, hth', hroot, ?_⟩
+  have hbot := hp.thrBot th hmem
+  rw [hstk] at hbot
+  cases hr' : rest.getLast? with
+  | none =>
+    have : rest = [] := by simpa using hr'
+    subst this
+    have := (hbot (.join k (i' + 1)) (by simp)).2
+    simp [IsBody] at this
+  | some b =>
+    have hb := hbot b (by
+      cases rest with
+      | nil => simp at hr'
+      | cons a r => rw [List.getLast?_cons_cons]; exact hr')
+    have hst : StackOK g rank (.join k (i' + 1) :: rest) := by
+      rw [← hstk]; exact hi.thrSt th hmem
+    have hlt := rank_top_lt_bot g rank acyc rest _ b hst hr'
+    rw [hb.1] at hlt
+    simp only [Frame.key] at hlt
+    rw [hroot]; exact hlt
+
+/-! ## 6. No call blocks forever: every schedule is finite, fair schedules terminate -/
+
+theorem reachable_inv2 (g : Url → Res) (rank : Url → Nat) (acyc : Acyclic g rank)
+    (cache0 : Url → CacheSt) (prog : List Op) (s : State) (hs : Reachable g cache0 prog s) :
+    Inv2 s := by
+  obtain ⟨sched, rfl⟩ := hs
+  exact runSched_inv2 g rank cache0 acyc sched _ (init_inv g rank cache0 prog) (init_inv2 cache0 prog)
+
+theorem reachable_step (g : Url → Res) (cache0 : Url → CacheSt) (prog : List Op) (s : State)
+    (hs : Reachable g cache0 prog s) (t : Nat) : Reachable g cache0 prog (step g s t) := by
+  obtain ⟨sched, rfl⟩ := hs
+  exact ⟨sched ++ [t], (runSched_append g sched t _).symm⟩
+
+/-- The measure `mu` (remaining work: `4 * phi1² + phi2`, `phi1` = cost of everything the frames
+    on all stacks and the not yet begun operations of the program can still cause, `phi2` =
+    position of the `load` frames in the load/join/pop cycle) strictly decreases with every step
+    of an enabled thread, in every reachable state. -/
+theorem measure_decreases (g : Url → Res) (rank : Url → Nat) (acyc : Acyclic g rank)
+    (cache0 : Url → CacheSt) (prog : List Op) (s : State) (hs : Reachable g cache0 prog s)
+    (t : Nat) (hen : enabled s t = true) : mu g rank (step g s t) < mu g rank s :=
+  step_dec g rank cache0 acyc s (reachable_inv g rank acyc cache0 prog s hs)
+    (reachable_inv2 g rank acyc cache0 prog s hs) t hen
+
+/-- Every schedule is finite: whatever the schedule (of any length), the number of its picks
+    that make a thread take a step (all other picks are no-ops) is bounded by a number that
+    depends only on the include graph and the caller's program: `4 * W²`, `W` = the sum over the
+    program's operations of the cost of loading their resource. -/
+theorem effective_steps_bounded (g : Url → Res) (rank : Url → Nat) (acyc : Acyclic g rank)
+    (cache0 : Url → CacheSt) (prog : List Op) (sched : List Nat) :
+    effSteps g (init cache0 prog) sched ≤ 4 * (progW g rank prog * progW g rank prog) := by
+  have := effSteps_bound g rank cache0 acyc sched _ (init_inv g rank cache0 prog) (init_inv2 cache0 prog)
+  rw [mu_init] at this
+  omega
+
+/-- The run of an infinite schedule `σ` (pick `σ n` at time `n`). -/
+def runInf (g : Url → Res) (s0 : State) (σ : Nat → Nat) : Nat → State
+  | 0 => s0
+  | n + 1 => step g (runInf g s0 σ n) (σ n)
+
+/-- Weak fairness, in the model's terms: whenever some thread can take a step, the scheduler
+    eventually picks a thread that can take a step (it does not pick blocked or finished threads
+    only, forever). -/
+def Fair (g : Url → Res) (s0 : State) (σ : Nat → Nat) : Prop :=
+  ∀ n, (∃ t, enabled (runInf g s0 σ n) t = true) →
+    ∃ m, n ≤ m ∧ enabled (runInf g s0 σ m) (σ m) = true
+
+theorem runInf_reachable (g : Url → Res) (cache0 : Url → CacheSt) (prog : List Op) (σ : Nat → Nat) :
+    ∀ n, Reachable g cache0 prog (runInf g (init cache0 prog) σ n) := by
+  intro n
+  induction n with
+  | zero => exact ⟨[], rfl⟩
+  | succ n ih => exact reachable_step g cache0 prog _ ih (σ n)
+
+/-- Termination under fairness: under every fair infinite schedule the system reaches a state in
+    which all threads have finished - the caller has completed its whole program (no call blocks
+    forever), every loader thread has exited - and stays there. -/
+theorem fair_schedule_terminates (g : Url → Res) (rank : Url → Nat) (acyc : Acyclic g rank)
+    (cache0 : Url → CacheSt) (prog : List Op) (σ : Nat → Nat)
+    (hfair : Fair g (init cache0 prog) σ) :
+    ∃ n, allDone (runInf g (init cache0 prog) σ n) = true ∧
+      ∀ m, n ≤ m → runInf g (init cache0 prog) σ m = runInf g (init cache0 prog) σ n := by
+  have hreach := runInf_reachable g cache0 prog σ
+  have hle : ∀ n m, n ≤ m → mu g rank (runInf g (init cache0 prog) σ m) ≤
+      mu g rank (runInf g (init cache0 prog) σ n) := by
+    intro n m hnm
+    induction m with
+    | zero => have : n = 0 := by omega
+              subst this; exact Nat.le_refl _
+    | succ m ih =>
+      by_cases he : n = m + 1
+      · subst he; exact Nat.le_refl _
+      · have := ih (by omega)
+        have h2 := step_mu_le g rank cache0 acyc _ (reachable_inv g rank acyc cache0 prog _ (hreach m))
+          (reachable_inv2 g rank acyc cache0 prog _ (hreach m)) (σ m)
+        simp only [runInf]
+        omega
+  have hdone : ∀ B n, mu g rank (runInf g (init cache0 prog) σ n) < B →
+      ∃ n', allDone (runInf g (init cache0 prog) σ n') = true := by
+    intro B
+    induction B with
+    | zero => intro n h; omega
+    | succ B ih =>
+      intro n hB
+      rcases progress g rank acyc cache0 prog _ (hreach n) with hd | hen
+      · exact ⟨n, hd⟩
+      · obtain ⟨m, hnm, hm⟩ := hfair n hen
+        have h1 := hle n m hnm
+        have h2 := measure_decreases g rank acyc cache0 prog _ (hreach m) (σ m) hm
+        exact ih (m + 1) (by simp only [runInf]; omega)
+  obtain ⟨n, hn⟩ := hdone _ 0 (Nat.lt_succ_self _)
+  refine ⟨n, hn, ?_⟩
+  intro m hnm
+  induction m with
+  | zero => have : n = 0 := by omega
+            subst this; rfl
+  | succ m ih =>
+    by_cases he : n = m + 1
+    · subst he; rfl
+    · have := ih (by omega)
+      simp only [runInf]
+      rw [this]
+      exact step_not_enabled g _ _ (allDone_not_enabled _ hn (σ m))
+
+/-! ## 7. Every maximal run completes the whole program -/
+
+/-- A maximal run (a schedule after which no thread can take a step) ends in a state where all
+    threads have finished, the completed operations are exactly the caller's program, in order,
+    and every requested `load(k)` has returned: the fully resolved document of a parsable
+    resource (loaded), `None` otherwise (failed). -/
+theorem maximal_run_completes (g : Url → Res) (rank : Url → Nat) (acyc : Acyclic g rank)
+    (cache0 : Url → CacheSt) (prog : List Op) (s : State) (hs : Reachable g cache0 prog s)
+    (hmax : ∀ t, enabled s t = false) :
+    allDone s = true ∧ (s.results.reverse.map fun r => r.op) = prog ∧
+    ∀ k, Op.load k ∈ prog → ∃ r ∈ s.results, r.op = .load k ∧
+      r.val.content = resolve g rank k.url ∧
+      (∀ incs, g k.url = .doc incs →
+        ∃ o, r.val = some o ∧ o.tree = .node k.url (incs.map (resolve g rank))) ∧
+      ((∀ incs, g k.url ≠ .doc incs) → r.val.content = .fail) := by
+  have hd : allDone s = true := by
+    rcases progress g rank acyc cache0 prog s hs with hd | ⟨t, ht⟩
+    · exact hd
+    · rw [hmax t] at ht; cases ht
+  have htr : (s.results.reverse.map fun r => r.op) = prog := by
+    obtain ⟨sched, rfl⟩ := hs
+    have h1 := runSched_trace g sched (init cache0 prog)
+    rw [init_trace] at h1
+    have hp : (runSched g (init cache0 prog) sched).prog = [] := by
+      simp only [allDone, Bool.and_eq_true, List.isEmpty_iff] at hd
+      exact hd.1.2
+    unfold trace at h1
+    rw [hp, List.append_nil] at h1
+    exact h1
+  refine ⟨hd, htr, ?_⟩
+  intro k hk
+  rw [← htr] at hk
+  simp only [List.mem_map, List.mem_reverse] at hk
+  obtain ⟨r, hr, hop⟩ := hk
+  exact ⟨r, hr, hop, load_result_schedule_independent g rank acyc cache0 prog s hs r hr k hop⟩
+
+/-- For a caller program without `refresh` (after a `clear()` the table may of course lack a
+    key published before): a maximal run ends in a state where every requested resource -
+    requested by `load` or by `deferred_load` - is loaded (it is in the table, with the fully
+    resolved content) or has failed (the table has no entry and there will never be one: the
+    resource cannot be fetched, or it is a template that cannot be parsed). -/
+theorem maximal_run_requested_loaded_or_failed (g : Url → Res) (rank : Url → Nat) (acyc : Acyclic g rank)
+    (cache0 : Url → CacheSt) (prog : List Op) (hnr : ∀ op ∈ prog, ∀ k, op ≠ .refresh k)
+    (s : State) (hs : Reachable g cache0 prog s) (hmax : ∀ t, enabled s t = false)
+    (k : Key) (hk : Op.load k ∈ prog ∨ Op.deferred k ∈ prog) :
+    (∃ v, s.sh.loaded k = some v ∧ v.content = resolve g rank k.url) ∨
+    (s.sh.loaded k = none ∧ (g k.url = .missing ∨ (g k.url = .garbage ∧ k.tpl = true))) := by
+  obtain ⟨hd, htr, _⟩ := maximal_run_completes g rank acyc cache0 prog s hs hmax
+  have h4 : Inv4 g s := by
+    obtain ⟨sched, rfl⟩ := hs
+    exact runSched_inv4 g rank cache0 acyc sched _ (init_inv g rank cache0 prog)
+      (init_invP cache0 prog) (init_inv4 g cache0 prog hnr)
+  have hdone : Done g s.sh k := by
+    have hr : ∃ r ∈ s.results, r.op = .load k ∨ r.op = .deferred k := by
+      rw [← htr] at hk
+      simp only [List.mem_map, List.mem_reverse] at hk
+      rcases hk with ⟨r, hr, hop⟩ | ⟨r, hr, hop⟩
+      · exact ⟨r, hr, Or.inl hop⟩
+      · exact ⟨r, hr, Or.inr hop⟩
+    obtain ⟨r, hr, hop⟩ := hr
+    rcases h4.resDone r hr k hop with h1 | ⟨t, h1⟩
+    · exact h1
+    · obtain ⟨i, th, _, hth, hroot⟩ := thrRef_get _ _ _ h1
+      have hmem := List.mem_of_getElem? hth
+      have hemp : th.stack = [] := by
+        simp only [allDone, Bool.and_eq_true, List.all_eq_true] at hd
+        simpa using hd.2 th hmem
+      have := h4.finished th hmem hemp
+      rw [hroot] at this
+      exact this
+  cases hl : s.sh.loaded k with
+  | some v => left; exact ⟨v, rfl, table_entries_resolved g rank acyc cache0 prog s hs k v hl⟩
+  | none =>
+    right
+    refine ⟨rfl, ?_⟩
+    rcases hdone with h1 | h1
+    · rw [hl] at h1; cases h1
+    · exact h1
+
 /-! ## Hypotheses are satisfiable, conclusions are not vacuous -/
 
 /-- The diamond R→A,B; A→D; B→D (R=0, A=1, B=2, D=3) with rank = height. -/
@@ -168,5 +454,25 @@ example :
     (s.results.map fun r => (r.val.map (·.id))) = [some 3, some 3, none, none]
       ∧ s.sh.err = false ∧ allDone s = true ∧ s.threads.length = 3 := by
   decide +kernel
+
+/-- The round-robin schedule is fair (it picks every thread again and again), and a maximal run
+    exists: the state reached above has no enabled thread, so `maximal_run_completes` and
+    `fair_schedule_terminates` speak about something.  The bound of `effective_steps_bounded`
+    for this program on the diamond is a concrete number. -/
+example :
+    let s := runSched diamond
+      (init (fun _ => .absent) [.deferred (tkey 1), .deferred (tkey 2), .load (tkey 0), .load (tkey 0)])
+      (List.replicate 30 [0, 1, 2, 3, 4]).flatten
+    (∀ t, t < 6 → enabled s t = false) ∧
+    progW diamond diamondRank [.deferred (tkey 1), .deferred (tkey 2), .load (tkey 0), .load (tkey 0)] = 112 := by
+  decide +kernel
+
+/-- The program of that run contains no `refresh`: the hypothesis of
+    `maximal_run_requested_loaded_or_failed` is met by it. -/
+example : ∀ op ∈ [Op.deferred (tkey 1), Op.deferred (tkey 2), Op.load (tkey 0), Op.load (tkey 0)],
+    ∀ k, op ≠ Op.refresh k := by
+  intro op h k
+  simp only [List.mem_cons, List.not_mem_nil, or_false] at h
+  rcases h with rfl | rfl | rfl | rfl <;> simp
 
 end C18
